@@ -9,10 +9,16 @@ package c09
 // exactly as in a running node. Base images: empty store, a 2-block chain, and three chains around the
 // real 8192-block window boundary (heads 8189, 8190, 8191) so that window [0,8191] rolls over, is
 // persisted, cached, rolled back by a reorg and re-created inside the explored depth.
+// The alphabet also holds FAILED operations after which the node keeps running (store / revert whose k-th
+// durable commit fails; a self-consistent block that does not connect and is refused by Store): they may
+// stand at any position of a history (bounds: searchCfg.faultDepth / maxFaults), e.g. "query, failed store,
+// store across the window boundary" - whatever the failure leaves behind in the in-memory index (running
+// window rebuilt as a new object, LRU not purged) has to show in a later state's query grid.
 // In every distinct state every filter x range x chunk size x scan limit is paged to the end through the
 // real Blockchain.EventFilter and compared with a naive scan of the reference receipts.
 
 import (
+	"errors"
 	"fmt"
 	"maps"
 	"math"
@@ -132,6 +138,9 @@ type searchCfg struct {
 	base     string
 	newState bool
 	depth    int
+	// fault histories: histories that contain a fault op (see node_test.go) are explored to length faultDepth,
+	// with at most maxFaults fault ops each, the fault(s) at ANY position
+	faultDepth, maxFaults int
 }
 
 func TestCheck(t *testing.T) {
@@ -141,16 +150,16 @@ func TestCheck(t *testing.T) {
 	var cfgs []searchCfg
 	if r.Quick() {
 		for _, b := range []string{"empty", "2blocks", "head8190", "head8191"} {
-			cfgs = append(cfgs, searchCfg{b, false, 4})
+			cfgs = append(cfgs, searchCfg{base: b, depth: 4})
 		}
 		for _, b := range []string{"2blocks", "head8190"} {
-			cfgs = append(cfgs, searchCfg{b, true, 4})
+			cfgs = append(cfgs, searchCfg{base: b, newState: true, depth: 4})
 		}
 	} else {
 		alphabet = []op{opStoreX, opStoreY, opStoreZ, opRevert, opQuery, opRestartG, opRestartU}
 		for _, ns := range []bool{false, true} {
 			for _, b := range []string{"empty", "2blocks", "head8189", "head8190", "head8191", "head8189-nosnap", "head8190-nosnap", "head8191-nosnap"} {
-				cfgs = append(cfgs, searchCfg{b, ns, 5})
+				cfgs = append(cfgs, searchCfg{base: b, newState: ns, depth: 5})
 			}
 		}
 	}
@@ -161,6 +170,21 @@ func TestCheck(t *testing.T) {
 			cfgs[i].depth = d
 		}
 	}
+	for i := range cfgs {
+		// quick: one failed op anywhere in a history of <= 3 ops; thorough: up to two in <= 4 ops
+		cfgs[i].faultDepth, cfgs[i].maxFaults = ev.Pick(r, 3, 4), ev.Pick(r, 1, 2)
+		if cfgs[i].faultDepth > cfgs[i].depth {
+			cfgs[i].faultDepth = cfgs[i].depth
+		}
+	}
+	if s := os.Getenv("C09_FAULT_DEPTH"); s != "" {
+		var d int
+		fmt.Sscan(s, &d)
+		for i := range cfgs {
+			cfgs[i].faultDepth = d
+		}
+	}
+	alphabet = append(alphabet, faultOps...)
 	if only := os.Getenv("C09_BASE"); only != "" {
 		var keep []searchCfg
 		for _, c := range cfgs {
@@ -208,11 +232,16 @@ func TestCheck(t *testing.T) {
 	denseDone := make(chan struct{})
 	go func() {
 		defer close(denseDone)
+		if os.Getenv("C09_NO_DENSE") != "" {
+			r.Incomplete("dense-block sweep switched off (C09_NO_DENSE, development aid)")
+			return
+		}
 		ev.Par(2, 2, func(i int) { denseQ[i] = h.denseSweep(i == 1) })
 	}()
 	type result struct {
 		st, tr, md, qs int64
 		per            []int
+		fs             faultStats
 	}
 	res := make([]result, len(cfgs))
 	h.sem = make(chan struct{}, runtime.NumCPU())
@@ -222,8 +251,8 @@ func TestCheck(t *testing.T) {
 		go func() {
 			defer wg.Done()
 			b := find(c)
-			st, tr, md, qs, per := h.search(b, alphabet, c.depth)
-			res[i] = result{st, tr, md, qs, per}
+			st, tr, md, qs, per, fs := h.search(b, alphabet, c)
+			res[i] = result{st, tr, md, qs, per, fs}
 			if imageSum(b.img) != b.sum {
 				r.Infra("frozen base image %s was modified during the run", b.name)
 			}
@@ -236,7 +265,7 @@ func TestCheck(t *testing.T) {
 	for _, c := range cfgs {
 		sweepBases = append(sweepBases, find(c))
 		if strings.HasPrefix(c.base, "head8") && !strings.HasSuffix(c.base, "-nosnap") {
-			sweepBases = append(sweepBases, find(searchCfg{c.base + "-nosnap", c.newState, c.depth}))
+			sweepBases = append(sweepBases, find(searchCfg{base: c.base + "-nosnap", newState: c.newState, depth: c.depth}))
 		}
 	}
 	for _, b := range sweepBases {
@@ -259,6 +288,7 @@ func TestCheck(t *testing.T) {
 	h.queries.Add(denseQ[0] + denseQ[1])
 	var states, transitions, maxDepth, qstates int64
 	var cfgNames []string
+	var fs faultStats
 	for i, c := range cfgs {
 		x := res[i]
 		states += x.st
@@ -267,10 +297,18 @@ func TestCheck(t *testing.T) {
 		if x.md > maxDepth {
 			maxDepth = x.md
 		}
-		name := fmt.Sprintf("%s%s depth<=%d", c.base, hist.Backend(c.newState), c.depth)
+		fs.add(x.fs)
+		name := fmt.Sprintf("%s%s depth<=%d (with <=%d failed ops: depth<=%d)", c.base, hist.Backend(c.newState), c.depth, c.maxFaults, c.faultDepth)
 		cfgNames = append(cfgNames, name)
-		r.Sample(map[string]any{"search": name, "states": x.st, "transitions": x.tr, "query_distinct_states_checked": x.qs, "new_states_per_depth": x.per})
+		r.Sample(map[string]any{"search": name, "states": x.st, "transitions": x.tr, "query_distinct_states_checked": x.qs, "new_states_per_depth": x.per,
+			"fault_histories": x.fs.histories, "fault_history_states": x.fs.states, "fault_history_states_checked": x.fs.checked})
 	}
+	// fault histories: measured counts (a history = one op sequence containing >= 1 failed op, replayed on one node)
+	r.Set("fault_histories", fs.histories)
+	r.Set("fault_histories_by_failed_op", fs.byOp)
+	r.Set("fault_history_states", fs.states)
+	r.Set("fault_history_states_checked", fs.checked)
+	r.Set("fault_op_not_enabled", fs.disabled)
 	r.Set("searches", cfgNames)
 	r.Set("states", states)
 	r.Set("transitions", transitions)
@@ -285,7 +323,10 @@ func TestCheck(t *testing.T) {
 	r.Set("filters", int64(len(h.filters)))
 	r.Set("pre_confirmed_queries", h.pcQueries.Load())
 	r.Set("cpu_s_replay_key_check", fmt.Sprintf("%.1f %.1f %.1f", float64(h.tReplay.Load())/1e9, float64(h.tKey.Load())/1e9, float64(h.tCheck.Load())/1e9))
-	r.Set("rule", fmt.Sprintf("BFS over histories of ops %v from each base image (see searches), every history replayed on ONE long-lived real Blockchain (restarts are ops); "+
+	r.Set("rule", fmt.Sprintf("BFS over histories of ops %v from each base image (see searches), every history replayed on ONE long-lived real Blockchain (restarts are ops; "+
+		"the query op = full-range query for everything and for everything emitted by A or B, both compared with the naive scan on the node as the history left it); "+
+		"ops named '!...' FAIL (k-th durable commit of the op returns an error / the block does not connect and is rejected), leave the chain unchanged and the node running: "+
+		"histories with such ops are explored with the failed op(s) at any position up to the bounds given per search, and are never cut by the internal deadline; "+
 		"state = KV image + reflective dump of running filter and LRU; in every state that is distinct for queries (image without the snapshot key + the two index objects): "+
 		"%d filters x all ranges over endpoints {0,8191,8192,head-2..head+1} x chunk %v x scan limit %v (on ranges > %d blocks a fully wildcard filter is only run pattern-less, unlimited, chunk 100 and chunk 1) "+
 		"in every state of depth <= %d additionally 3 pre-confirmed chains (1-2 blocks) above the head x all filters x ranges reaching above the head incl. the pre_confirmed tag at either end; "+
@@ -298,7 +339,8 @@ func TestCheck(t *testing.T) {
 	r.Assume = append(r.Assume,
 		"blocks are produced by verif/mc/chain (valid hashes/commitments); event layouts come from the 4-shape set of universe_test.go",
 		"a key pattern ending in a wildcard position is compared under juno's reading (event needs a key at every pattern position); counted in outcome 'trailing-wildcard-excludes-shorter-event'",
-		"crash = loss of the process (new Blockchain on the same store); a failing commit (failed-commit sweep) returns an error and applies nothing (verif/mc/faultdb)",
+		"crash = loss of the process (new Blockchain on the same store); a failing commit (fault ops of the search, failed-commit sweep) returns an error and applies nothing (verif/mc/faultdb)",
+		"rejected blocks are self-consistent (they pass SanityCheckNewHeight) and fail inside Store: parent is a sibling of the head / state update's old root is not the head's root",
 		"base images are reached by plain sequential sync (no enumeration below them)")
 	r.Finish()
 }
@@ -311,11 +353,44 @@ func opList(a []op) []string {
 	return s
 }
 
+// faultStats: measured counts of the fault-history part of a search.
+type faultStats struct {
+	histories int64            // replayed histories that contain >= 1 failed op
+	byOp      map[string]int64 // ... of those, histories that END in the failed op, by op
+	states    int64            // new states (by key and fault layer) such histories reach
+	checked   int64            // ... of those, states with a new query key: the whole grid was run
+	disabled  int64            // (state, failed op) pairs where the op has fewer commits than the fault asks for
+}
+
+func (f *faultStats) add(o faultStats) {
+	f.histories += o.histories
+	f.states += o.states
+	f.checked += o.checked
+	f.disabled += o.disabled
+	if f.byOp == nil {
+		f.byOp = map[string]int64{}
+	}
+	for k, v := range o.byOp {
+		f.byOp[k] += v
+	}
+}
+
 // search: breadth-first over op sequences, deduplicated by the concrete state key.
-func (h *harness) search(b *base, alphabet []op, depth int) (states, transitions, maxDepth, qstates int64, perDepth []int) {
+//
+// Fault ops (isFault) are ordinary letters of the alphabet with two bounds: a history holds at most c.maxFaults of
+// them and a history that holds one is at most c.faultDepth ops long - so a failed commit / rejected block stands at
+// EVERY position of every history of <= faultDepth ops, the node lives on, and every state reached afterwards gets
+// the whole query grid (unless a state with the same query key - same store, same index objects - already had it).
+// States are kept apart by the number of faults spent ("layer"): a state is pruned only if the same key was reached
+// before with at most as many faults (that one has at least the same futures left). Levels below faultDepth are not
+// subject to the internal deadline: a slow machine cuts the deepest clean level, never the fault histories.
+func (h *harness) search(b *base, alphabet []op, c searchCfg) (states, transitions, maxDepth, qstates int64, perDepth []int, fs faultStats) {
 	r := h.r
+	depth := c.depth
+	fs.byOp = map[string]int64{}
 	label := b.name + hist.Backend(b.newState)
-	seen := map[string]bool{}
+	seenPrev := map[string]uint8{} // key -> fault layers (bit f = reached with f faults) in earlier levels
+	seenNow := map[string]uint8{}  // ... in the level being expanded
 	qseen := map[string]bool{}
 	var mu sync.Mutex
 	visit := func(n *node, p []op) {
@@ -324,7 +399,7 @@ func (h *harness) search(b *base, alphabet []op, depth int) (states, transitions
 		n.pre = maps.Clone(n.db.Impl().(map[string][]byte))
 		if len(n.chain) > 0 {
 			if err := n.bc.WriteRunningEventFilter(); err != nil {
-				r.Violate("running-filter-unusable"+hist.Backend(b.newState), map[string]any{"base": label, "path": pathString(p), "err": err.Error()})
+				r.Violate("running-filter-unusable"+hist.Backend(b.newState)+faultTag(p), map[string]any{"base": label, "path": pathString(p), "err": err.Error()})
 				return
 			}
 		}
@@ -334,6 +409,9 @@ func (h *harness) search(b *base, alphabet []op, depth int) (states, transitions
 		qseen[qk] = true
 		if !dup {
 			qstates++
+			if faults(p) > 0 {
+				fs.checked++
+			}
 		}
 		mu.Unlock()
 		if !dup {
@@ -355,7 +433,7 @@ func (h *harness) search(b *base, alphabet []op, depth int) (states, transitions
 	if r2, _, _ := b.replay(nil); r2.key() != rk {
 		r.Infra("state key is not deterministic on base %s", label)
 	}
-	seen[rk] = true
+	seenPrev[rk] = 1
 	states = 1
 	visit(root, nil)
 	<-h.sem
@@ -368,12 +446,21 @@ func (h *harness) search(b *base, alphabet []op, depth int) (states, transitions
 		}
 		var jobs []job
 		for _, s := range frontier {
+			f := faults(s.path)
 			for _, o := range alphabet {
+				nf := f
+				if isFault(o) {
+					nf++
+				}
+				if nf > c.maxFaults || (nf > 0 && d+1 > c.faultDepth) {
+					continue
+				}
 				jobs = append(jobs, job{s, o})
 			}
 		}
+		protected := d < c.faultDepth
 		ev.Par(len(jobs), runtime.NumCPU(), func(i int) {
-			if r.OutOfTime() {
+			if !protected && r.OutOfTime() {
 				r.Incomplete(fmt.Sprintf("%s: search stopped at depth %d", label, d))
 				return
 			}
@@ -381,10 +468,16 @@ func (h *harness) search(b *base, alphabet []op, depth int) (states, transitions
 			defer func() { <-h.sem }()
 			j := jobs[i]
 			p := append(append([]op{}, j.s.path...), j.o)
+			nf := faults(p)
 			t0 := time.Now()
 			n, at, err := b.replay(p)
 			h.tReplay.Add(int64(time.Since(t0)))
 			if err == errDisabled {
+				if isFault(j.o) {
+					mu.Lock()
+					fs.disabled++
+					mu.Unlock()
+				}
 				return
 			}
 			if err != nil {
@@ -392,6 +485,21 @@ func (h *harness) search(b *base, alphabet []op, depth int) (states, transitions
 					r.Infra("replay of a known-good prefix failed: %s at %d: %v", pathString(p), at, err)
 				}
 				r.Outcome("op-fails " + opNames[j.o])
+				if err == errFaultSwallowed {
+					return // (as in the failed-commit sweep: counted as an outcome; what the store holds then is C05's subject)
+				}
+				if errors.Is(err, errHistoryQueryWrong) {
+					r.Violate("query-op-of-history wrong (node as the history left it, running filter not forced)"+hist.Backend(b.newState)+faultTag(p),
+						map[string]any{"base": label, "path": pathString(p), "err": err.Error()})
+					return
+				}
+				if errors.Is(err, errHarnessBlock) {
+					r.Infra("%s: %s: %v", label, pathString(p), err)
+				}
+				if err == errAccepted {
+					r.Violate("non-connecting block accepted"+hist.Backend(b.newState), map[string]any{"base": label, "path": pathString(p)})
+					return
+				}
 				what := opNames[j.o]
 				if i := strings.Index(what, ":"); i > 0 {
 					what = what[:i]
@@ -400,24 +508,41 @@ func (h *harness) search(b *base, alphabet []op, depth int) (states, transitions
 				if strings.Contains(err.Error(), "block number is not within range") {
 					cause = " (block outside the running filter window)"
 				}
-				r.Violate("op-fails "+what+cause+hist.Backend(b.newState), map[string]any{"base": label, "path": pathString(p), "err": err.Error()})
+				r.Violate("op-fails "+what+cause+hist.Backend(b.newState)+faultTag(p), map[string]any{"base": label, "path": pathString(p), "err": err.Error()})
 				return
+			}
+			if isFault(j.o) {
+				r.Outcome("failed op leaves the node running: " + opNames[j.o])
 			}
 			t0 = time.Now()
 			k := n.key()
 			h.tKey.Add(int64(time.Since(t0)))
+			bit := uint8(1) << nf
 			mu.Lock()
 			transitions++
-			fresh := !seen[k]
+			if nf > 0 {
+				fs.histories++
+				if isFault(j.o) {
+					fs.byOp[opNames[j.o]]++
+				}
+			}
+			fresh := seenPrev[k]&(bit<<1-1) == 0 && seenNow[k]&bit == 0
 			if fresh {
-				seen[k] = true
+				seenNow[k] |= bit
 				next = append(next, state{p})
+				if nf > 0 {
+					fs.states++
+				}
 			}
 			mu.Unlock()
 			if fresh {
 				visit(n, p)
 			}
 		})
+		for k, m := range seenNow {
+			seenPrev[k] |= m
+		}
+		clear(seenNow)
 		// deterministic order of the next frontier
 		sort.Slice(next, func(i, j int) bool { return pathLess(next[i].path, next[j].path) })
 		states += int64(len(next))
@@ -697,7 +822,7 @@ func (h *harness) checkState(n *node, path []op, label string) {
 
 func (h *harness) report(n *node, path []op, label string, f *filter, from, to, chunk uint64, lim uint, res pagedResult, exp []*refEvent, baseOK bool) {
 	r := h.r
-	backend := hist.Backend(n.b.newState) + n.ctx
+	backend := hist.Backend(n.b.newState) + n.ctx + faultTag(path)
 	detail := map[string]any{"base": label, "path": pathString(path), "filter": f.name, "from": from, "to": to, "chunk": chunk, "scan_limit": limitName(lim),
 		"head": len(n.chain) - 1, "expected": expStrings(exp), "got": gotStrings(res.evs)}
 	if res.err != "" {
